@@ -213,6 +213,30 @@ Fixpoint spec_wait (script : list revent) (todo : list N) : option (cres * list 
       end
   end.
 
+(* a WaitForPendingACKs that met something outside the fault model (a receive failure, a reply to another request,
+   nothing at all) still owes the property its bookkeeping: a request leaves the pending list exactly when a message
+   carrying its number was delivered to this call.  [used] is what the call took from the script (observed). *)
+Fixpoint after_wait (used : list revent) (todo : list N) {struct used} : list N :=
+  match todo with
+  | [] => []
+  | q :: rest =>
+      match used with
+      | [] => todo
+      | RErr _ :: u => after_wait u todo
+      | RNone :: _ => todo
+      | RMsg ty sq d :: u =>
+          if (sq =? 0) && negb (q =? 0) then after_wait u todo
+          else if sq =? q then
+            (if ty =? UAPI_NLMSG_ERROR then
+               match d with
+               | a :: b :: c :: e :: _ => if Z.eqb (s32u (uword_at d 0)) 0 then after_wait u rest else rest
+               | _ => rest
+               end
+             else rest)
+          else todo
+      end
+  end.
+
 Definition chk_c17_call (st : k17) (o : cop) (q : N) (faulted : bool) (script : list revent) (r : cres) (ws : list wire) (cl : bool) (consumed : N)
   : k17 * bool :=
   match o with
@@ -226,7 +250,8 @@ Definition chk_c17_call (st : k17) (o : cop) (q : N) (faulted : bool) (script : 
         | Some (er, remaining, rest) =>
             ({| kp := remaining; kpid := kpid st; kclosed := kclosed st; ktrack := true |},
              cres_eqb r er && (consumed =? N.of_nat (length script - length rest)) && negb cl && match ws with [] => true | _ => false end)
-        | None => ({| kp := []; kpid := kpid st; kclosed := kclosed st; ktrack := false |}, negb cl)
+        | None => ({| kp := after_wait (firstn (N.to_nat consumed) script) (kp st); kpid := kpid st; kclosed := kclosed st; ktrack := true |},
+                   negb cl && match ws with [] => true | _ => false end)
         end
       else (st, negb cl)
   | OClose =>
